@@ -104,6 +104,27 @@ Theorem C10_prune_gap_anchor_snapshot_refuted :
   last_out (run_from fixed (init0 false) h_gap_anchor) = Ok (RRef (5, 6)).
 Proof. exact prune_gap_anchor_refuted. Qed.
 
+(* found by review of the first repair series (fixes/C10-prune-partial-reparent.diff): re-parenting only after a complete prune *)
+Theorem C10_prune_partial_reparent_refuted :
+  last_out (run_from all_but_partial (init0 false) h_gap_fail) = Ok (RRef (3, 5)) /\
+  last_exp (spec_from (init0 false) h_gap_fail) = EVal (RRef (5, 6)) /\
+  last_out (run_from fixed (init0 false) h_gap_fail) = Ok (RRef (5, 6)).
+Proof. exact prune_partial_reparent_refuted. Qed.
+(* adopted from zrnt's graph, with or without a prune: a head computed from an empty-slot node that is not the lowest node of its
+   root stays on that root's empty-slot chain (Impl and Spec agree) *)
+Theorem C10_head_from_gap_start_adopted :
+  last_out (run_from fixed (init0 false) (removelast h_gap_fail ++ [OHead])) = Ok (RRef (3, 5)) /\
+  last_exp (spec_from (init0 false) (removelast h_gap_fail ++ [OHead])) = EVal (RRef (3, 5)) /\
+  last_out (run_from fixed (init0 false) (firstn 7 h_gap_fail ++ [OSetPin 3 4; OHead])) = Ok (RRef (3, 5)) /\
+  last_exp (spec_from (init0 false) (firstn 7 h_gap_fail ++ [OSetPin 3 4; OHead])) = EVal (RRef (3, 5)).
+Proof. exact head_from_gap_start_adopted. Qed.
+(* after a sink failure the Spec goes on: the tree is what was not acknowledged; later heads, queries, votes, blocks and the
+   next (complete) prune are what the Spec says, on this history *)
+Example C10_after_sink_failure_nonvacuous :
+  refines sel_c10 true (init0 false) (h_gap_fail ++ [OHead; OFindHead 3 4; OGetSlot 3; OGetSlot 2; OChain 3 3; OAtt 2 4 5; OHead; OBlock 5 6 7 1 1; OFindHead 3 3;
+                                                     OSlot 6 8 2 2; OBlock 6 7 9 2 2; OUpdate 7 (2, 6) (2, 6) (Some [10; 10; 10]) None; OHead; OChain 6 8; OGetSlot 3]) = true.
+Proof. exact (proj1 refines_after_sink_failure). Qed.
+
 (* KNOWN FINDING prune_keeps_late_fork (repaired code too): the full statement fails exactly on that shape *)
 Theorem C10_prune_keeps_late_fork_refuted :
   last_out (run_from fixed (init0 true) (h_prune ++ [OGetSlot 7])) = Ok (RSlot (Some 3)) /\
